@@ -1,7 +1,8 @@
 """C15 on deterministic code ADEV is ordinary forward-mode AD (structural clauses, DESIGN §4-C15)."""
-from . import adevr
+from . import adevi
 
 EXPLANATION = ("Default path dispatches to JAX's primitive JVP rule with canonicalised tangents; zero tangents are manufactured from their primals; "
-               "cond's reversed branch order is compensated exactly once; Dual-tree plumbing of jvp_estimate/grad_estimate/estimate.")
-RULES = [adevr.default_jvp_path, adevr.zero_tangent_shapes, adevr.cond_rule, adevr.interpreter_rule]
+               "cond's reversed branch order is compensated exactly once; Dual-tree plumbing of jvp_estimate/grad_estimate/estimate.  All decided by "
+               "evaluating the interpreter's arms and the Dual helpers on finite model equations (absint), not by matching their text.")
+RULES = [adevi.dual_helpers_rule, adevi.default_jvp_path, adevi.zero_tangent_shapes, adevi.cond_rule, adevi.interpreter_rule]
 FLOOR = 12
